@@ -247,6 +247,14 @@ package loader
 //@   except nilbox#12, nilderef#14, typeassert#1 : undischarged on the reference tree (engine limit or missing callee contract), not claimed
 //@   nopanic[C01,C05]
 //@   requires ctx != nil && services != nil && opts != nil && tracker != nil
+// C02/C05 ownership: ExtendService merges INTO its first argument, so it is only ever given a map made
+// during this call (the clone of the base), never the memoised entry of `services` another extender may share.
+//@   callsite[C02,C05] override.ExtendService : fresh(base)
+// C01/C05 cycle safety: every recursion is made with a tracker produced during this call (cycleTracker.Add
+// returns a fresh, one-hop-longer tracker or an error) whose last hop is this service, so a chain of
+// extends cannot grow without the tracker growing. (The relation to the length at entry is not stated:
+// getExtendsBaseFromFile sits in between and its frame is the static MOD over-approximation.)
+//@   callsite[C01,C05] loader.applyServiceExtends : fresh(tracker) && tracker.loaded[len(tracker.loaded) - 1].service == caller_name
 //@   ensures[C01,C05] err != nil ==> result.0 == nil
 //@   ensures[C01,C05] err == nil ==> result.0 == nil || isMap(result.0)
 //@?   ensures[C01,C05] wf(result.0)   // undischarged on the reference tree: not claimed
